@@ -13,7 +13,7 @@ import vlib
 
 PID = "C16"
 SPEC, CFG, DIAG = "Tr_Proof.tla", "Tr_Proof.cfg", "Tr_Proof_diag.cfg"
-SIZES = {"quick": dict(games=48, filter_s=50, kgames=1400, pathgames=96, bound_games=1500, per=10), "thorough": dict(games=3000, filter_s=2400, kgames=30000, pathgames=3000, bound_games=40000, per=16)}
+SIZES = {"quick": dict(games=48, filter_s=50, kgames=1400, pathgames=96, kingpair_games=24000, bound_games=1500, per=10), "thorough": dict(games=3000, filter_s=2400, kgames=30000, pathgames=3000, kingpair_games=600000, bound_games=40000, per=16)}
 
 
 def run(tier, seed):
@@ -148,6 +148,19 @@ def run(tier, seed):
     # the bound needs no kernel search, so half of the bound games may trade down to 8 men (promotions, long pawn paths)
     g3, f3 = os.path.join(wd, "games3.txt"), os.path.join(wd, "fens3.txt")
     vlib.sh([hp, "games", str(seed + 6000), str(sz["bound_games"]), g3, f3, "8"], timeout=900)
+    # many more games for the deadlock rules only (a king without a free square that moves a little later, no capture in between)
+    g4, f4 = os.path.join(wd, "games4.txt"), os.path.join(wd, "fens4.txt")
+    kpjobs = []
+    for k in range(12):
+        kpjobs.append((k, os.path.join(wd, f"g4.{k}.txt"), os.path.join(wd, f"f4.{k}.txt")))
+
+    def kp(j):
+        k, gp, fp = j
+        vlib.sh([hp, "games", str(seed + 8000 + k), str(sz["kingpair_games"] // 12), gp, fp, "26"], timeout=900)
+        out = os.path.join(wd, f"kp.{k}.ndjson")
+        pb = vlib.sh([hp, "bounds", str(seed + 100 + k), gp, out, str(sz["per"]), "kingpairs"], timeout=3000)
+        return out, (json.loads(pb.stdout.strip().split("\n")[-1]) if pb.returncode == 0 else {"error": pb.stderr[-300:]})
+    kp_res = vlib.pmap(kp, kpjobs)
     # split the games over several processes
     glines = open(g2).read().strip().split("\n") + open(g3).read().strip().split("\n")
     nproc = 12
@@ -164,7 +177,7 @@ def run(tier, seed):
         pb = vlib.sh([hp, "bounds", str(seed + k), part, out, str(sz["per"])], timeout=3000)
         return out, (json.loads(pb.stdout.strip().split("\n")[-1]) if pb.returncode == 0 else {"error": pb.stderr[-300:]})
     nb = 0
-    for out, inf in vlib.pmap(bnd, jobs):
+    for out, inf in kp_res + vlib.pmap(bnd, jobs):
         if "error" in inf:
             rep.violation("bounds-crash", "h_proof bounds failed: " + inf["error"])
             continue
